@@ -53,7 +53,8 @@ func runC02(e *Env) {
 	e.S.Floor("C02.deleg", 16)
 	// "is accepted by the validity check": Valid matches what the parser matches, for every input type (C10.same)
 	e.As(map[string]string{"C10.same": "C02.valid"}, func() { ruleC10Same(e) })
-	e.S.Floor("C02.valid", 3)
+	ruleNoMatchRejects(e, "C02.valid", e.Fn("C02.valid", "roman", "Valid"))
+	e.S.Floor("C02.valid", 4)
 	// the formatted numeral is the caller's: appended to its buffer, no storage shared with later calls (C16's rules)
 	if df := e.Fn("C02.buffer", "roman", "DefaultFormatter"); df != nil {
 		e.FlowAs(map[string]string{"C16.append": "C02.buffer", "C16.indep": "C02.buffer"}, func(c *flow.Ctx) {
